@@ -59,4 +59,40 @@ CLAIMED["C18"] = {
           "and the real binary; the documented-set, one-action-per-group, derived-name and rejected-before-assembling predicates are evaluated on the implementation's own behaviour.",
   "design_ref": "6/C18", "note": COMMON_NOTE + " getopts spellings, the assembler itself and PathBuf::set_extension are oracles/trusted.",
   "technique": "Coq induction over parameter maps and group lists + vm_compute table obligations over translated tables + differential correspondence + real-binary process checks"}
+RESOLVER_NOTE = (" The resolver model covers the language fragment: global labels and constants, instructions over rule sets with sub-rules, typed/untyped "
+                 "arguments, data directives, #res/#align/#addr in the default bank, static-value optimisation off (the implementation is run with both switch settings and "
+                 "compared with it); banks, nested symbols, #if, functions and asm blocks are covered by their own properties' models.")
+CLAIMED["C01"] = {
+  "text": "The language definition is an executable two-phase denotation (static layout, then constants by knowledge-monotone sweeps, then every encoding once, then a strict "
+          "self-consistency check). Proved for all programs of the modelled fragment: the definition's answer and the assembler model's answer are both certified states "
+          "(C01_sound_partial, C01_denote_certified); the full equality statement is kept visible as C01_sound_statement and decided on every run by comparing the implementation "
+          "with the extracted definition (success, bits, symbol values AND rejections) on size-static G-isa x G-prog with operands at every typed range boundary, and with the extracted resolver model.",
+  "design_ref": "6/C01", "note": COMMON_NOTE + RESOLVER_NOTE + " Uniqueness of the certified state of a size-static program (needed for the full C01_sound) is not proved.",
+  "technique": "Coq proof (state invariants, fixed-point lemmas) for the certified-state part + differential correspondence implementation / extracted denotation / extracted model"}
+CLAIMED["C02"] = {
+  "text": "Proved for every program, budget and matcher mode of the model: a pass that reports 'resolved' changes nothing (all stability tests compare value and size), every success of "
+          "resolve_iteratively ends in a state from which a strict pass recomputes every label, constant, instruction, data element, #res/#align/#addr to exactly what the state holds, "
+          "the output is built from that state, the pass count is within the budget, and there is no other path to output. The extracted certificate is evaluated on the IMPLEMENTATION's own "
+          "results (state reconstructed from its symbol values and emitted bits) for cascading programs x budgets 1..30 x both switches; implementation = extracted model (bits, symbols, pass count).",
+  "design_ref": "6/C02", "note": COMMON_NOTE + RESOLVER_NOTE,
+  "technique": "Coq proof (invariant labels_ok, per-node fixed-point lemmas, induction over the loop) + extracted certificate checker on implementation output + differential correspondence"}
+CLAIMED["C07"] = {
+  "text": "Matcher-model theorems (pattern characters stored lower-cased and compared modulo ASCII case, literal priority: only matches with the maximal recursive literal count survive; see Props/C07.v) "
+          "plus, on every run, the metamorphic statement itself on the implementation: each size-static program is rendered from its structure in 8 ways (recase, blanks/tabs/block comments at token "
+          "boundaries, trailing comments, rule permutation, re-partitioning, injective label renaming, all together) and every rendering must assemble to the base rendering's result; every rendering is also "
+          "compared with the extracted model; literal-vs-expression overlaps are built on purpose.",
+  "design_ref": "6/C07", "note": COMMON_NOTE + RESOLVER_NOTE + " The invariance under blank insertion and rule order is decided by the metamorphic run, not by a theorem.",
+  "technique": "Coq lemmas on the matcher model + metamorphic differential testing of the implementation against itself and against the extracted model"}
+CLAIMED["C08"] = {
+  "text": "Matcher half: theorems on the matcher model that the prefix index never loses a candidate rule (every rule that can match is returned by the query on the instruction's key) and returns only real rules, "
+          "with the prefix size tied to the source by a table obligation. Static half and end-to-end: on every run all four switch combinations x budgets are compared on the implementation (generated programs incl. "
+          "parameters named like constants, the whole corpus) and with the optimisation-free extracted model; match_instr with and without the index is compared as a set and with the extracted matcher model in both modes.",
+  "design_ref": "6/C08", "note": COMMON_NOTE + RESOLVER_NOTE + " The static-value analysis (inspect.rs) is not modelled; its soundness is decided by the four-way comparison.",
+  "technique": "Coq proof (prefix completeness by induction over pattern parts) + table obligation + four-way metamorphic comparison + differential correspondence"}
+CLAIMED["C09"] = {
+  "text": "Proved for every program of the model: if it assembles with budget b it assembles to the identical output and symbol values with every larger budget (mode agreement: a resolved strict pass is reproduced by the "
+          "guessing pass, via monotonicity of the evaluator in its variable provider; fixed-point persistence), and the reported pass count never exceeds the budget. On every run the implementation is assembled under budgets "
+          "1,2,3,4,5,10,11,30: success at b must be reproduced identically at every larger budget; implementation = extracted model at every budget (bits, symbols, pass count).",
+  "design_ref": "6/C09", "note": COMMON_NOTE + RESOLVER_NOTE + " Asm blocks (inner loop reusing the budget) are outside the proved fragment.",
+  "technique": "Coq proof (generic loop theory instantiated; eval_mono; mode agreement per node kind) + budget-sweep metamorphic comparison + differential correspondence"}
 NOT_CLAIMED = {}
